@@ -149,6 +149,15 @@ class WriterRun:
             return "ot"
         return None
 
+    def on_elem_write(self, st, loc, val):
+        """an element of the buffer or of the open-master stack is overwritten in place (last_mut(), get_mut(), iter_mut(), indexing)"""
+        w = self.which(loc)
+        if w is None:
+            return
+        g = st.ghost
+        self.events.append(("mutate", (w, "element-write"), {"validated": g.get("validated"), "wb": g.get("wb"), "ot": g.get("ot"), "fn": "?"}))
+        st.ghost[w] = "dirty"
+
     def on_mutate(self, call, loc, op, **kw):
         w = self.which(loc)
         if w is None:
@@ -270,6 +279,7 @@ class WriterRun:
         eng.models["ebml_iterable_specification::EbmlSpecification::get_tag_data_type"] = self.m_get_type
         eng.models["spec_util::validate_tag_path"] = self.m_validate
         eng.on("mutate", self.on_mutate)
+        eng.on("elem_write", self.on_elem_write)
         eng.on("call", self.on_call)
         eng.on("aggregate", self.on_aggregate)
         self.eng = eng
